@@ -381,3 +381,11 @@ func (r *Rec) Replay(t *testing.T) {
 		t.Logf("replay %s: passed", f)
 	}
 }
+
+// HarnessBug aborts the test binary with exit status 3: the harness found
+// its own expectation inconsistent.  The driver reports that as
+// inconclusive, never as a violation.
+func HarnessBug(format string, args ...interface{}) {
+	fmt.Printf("HARNESS BUG: "+format+"\n", args...)
+	os.Exit(3)
+}
